@@ -156,6 +156,13 @@ func check(o *runOpts) int {
 			pkgSet[l.Pkg] = true
 		}
 	}
+	var globalChecks []GlobalCheck
+	for _, gc := range cs.Checks {
+		if (o.property == "" || hasProp(gc.Props, o.property)) && (o.funcFilter == "" || strings.Contains(gc.Name, o.funcFilter)) {
+			globalChecks = append(globalChecks, gc)
+			pkgSet[modulePath+"/..."] = true
+		}
+	}
 	if len(keys) == 0 && len(pkgSet) == 0 {
 		fmt.Fprintf(os.Stderr, "no contracts for property %q\n", o.property)
 		return toolingFailure(o, "no contracts selected")
@@ -213,6 +220,16 @@ func check(o *runOpts) int {
 		units = append(units, &unitResult{key: l.Pkg + "#lemma." + l.Name, vc: translateLemma(prog, l)})
 	}
 
+	for _, gc := range globalChecks {
+		switch gc.Name {
+		case "events-closed":
+			units = append(units, &unitResult{key: "events#closed", vc: checkEventsClosed(prog, gc)})
+		default:
+			vc := newVC(prog, gc.Name)
+			vc.unsupported("contract-stale: unknown global check %s", gc.Name)
+			units = append(units, &unitResult{key: gc.Name, vc: vc})
+		}
+	}
 	// collect obligations
 	var obls []*Obl
 	oblVC := map[*Obl]*VC{}
